@@ -431,6 +431,11 @@ class Interp:
             if n.get("dk") == "local" and n.get("d") in self.forced and fn is self.fn:
                 env[n.get("d")] = self.forced[n.get("d")]
             return
+        if n.k == "UnaryOperator" and n.op == "*" and not _has_effects(n.c[0]):
+            pv = self.rv(self.ev(n.c[0], env, fn, depth), env)
+            if isinstance(pv, tuple) and pv and pv[0] == "ADDR" and len(pv) > 3:
+                pv[3][pv[1]] = wrap(val, pv[2]) if isinstance(val, int) else val
+                return
         # store through a pointer: record a write when tracked
         p, size = self.addr(n, env, fn, depth)
         if p is not None:
@@ -567,6 +572,10 @@ class Interp:
         if isinstance(v, tuple) and v and v[0] == "LV":
             return env.get(v[1], U)
         n = lnode.strip()
+        if n.k == "UnaryOperator" and n.op == "*" and not _has_effects(n.c[0]):
+            pv = self.rv(self.ev(n.c[0], env, fn, depth), env)
+            if isinstance(pv, tuple) and pv and pv[0] == "ADDR" and len(pv) > 3:
+                return pv[3].get(pv[1], U)          # *(&local) in the frame that owns the local
         if n.k in ("ArraySubscriptExpr", "MemberExpr") or (n.k == "UnaryOperator" and n.op == "*"):
             p, size = self.addr(n, env, fn, depth)
             if p is not None:
@@ -607,7 +616,7 @@ class Interp:
                 p, size = self.addr(t, env, fn, depth)
                 return p if p is not None else U
             if t.k == "DeclRefExpr" and t.get("d") is not None and t.get("dk") in ("local", "param"):
-                return ("ADDR", t.get("d"), t.t)
+                return ("ADDR", t.get("d"), t.t, env)      # address of a local: carries the frame it lives in
             return U
         v = self.rv(self.ev(e.c[0], env, fn, depth), env)
         if not isinstance(v, int):
@@ -681,6 +690,11 @@ class Interp:
 
     def heap_value(self, lnode, env, fn, depth):
         """Current value of a memory lvalue when object state is tracked (self.heap), else Unknown."""
+        n = lnode.strip()
+        if n.k == "UnaryOperator" and n.op == "*" and not _has_effects(n.c[0]):
+            pv = self.rv(self.ev(n.c[0], env, fn, depth), env)
+            if isinstance(pv, tuple) and pv and pv[0] == "ADDR" and len(pv) > 3:
+                return pv[3].get(pv[1], U)
         if self.heap is None:
             return U
         p, size = self.addr(lnode, env, fn, depth)
@@ -771,13 +785,14 @@ class Interp:
             self.access(args[0], n, "w", e)
             self.access(args[1], n, "r", e)
             if isinstance(args[0], tuple) and args[0] and args[0][0] == "ADDR":
+                tgt_env = args[0][3] if len(args[0]) > 3 else env
                 val = U
                 mem = getattr(self, "memory", None)
                 if mem is not None and isinstance(args[1], Ptr) and isinstance(args[1].off, int) and isinstance(n, int):
                     v2 = mem(args[1].base, args[1].off, n)
                     if v2 is not None:
                         val = wrap(v2, args[0][2]) if isinstance(v2, int) else v2
-                env[args[0][1]] = val
+                tgt_env[args[0][1]] = val
             return args[0]
         if name in ("memset", "__builtin_memset", "__memset_chk"):
             self.access(args[0], args[2] if len(args) > 2 else U, "w", e)
